@@ -53,6 +53,7 @@ type scenario struct {
 }
 
 var mosnProto = map[string]string{"bolt": "bolt", "http1": "Http1", "http2": "Http2"}
+var coqProto = map[string]string{"bolt": "PBolt", "http1": "PHttp1", "http2": "PHttp2"}
 
 // the moment the request becomes a stream (request_active + 1): bolt and HTTP/1 decode a request only when it has
 // arrived completely, HTTP/2 creates the stream on the HEADERS frame
@@ -316,6 +317,7 @@ func c11Server(run *Run, dir string) int {
 
 	// ---- evaluate ----
 	sh := run.NewShard(c11Header, "drain_case", "drain_mismatches")
+	ann := run.NewShard(c11Header, "ann_case", "ann_mismatches")
 	const tol = 70
 	for _, sc := range scs {
 		if sc.Err != "" {
@@ -341,7 +343,9 @@ func c11Server(run *Run, dir string) int {
 			if dec < p.T0 {
 				dec = p.T0
 			}
-			rs = append(rs, fmt.Sprintf("(mkR %d%%nat %d%%nat %d%%nat 0%%nat)", p.T0, dec-p.T0, max(done-dec, 0)))
+			// client-side times, made monotone (clock reads of different goroutines)
+			first, hdr, sent := p.FirstAt, max(p.HdrAt, p.FirstAt), max(p.SentAt, max(p.HdrAt, p.FirstAt))
+			rs = append(rs, fmt.Sprintf("(mkX %s %d%%nat %d%%nat %d%%nat %d%%nat)", coqProto[sc.Proto], first, hdr, sent, max(done, sent)))
 			for _, b := range []int{dec, done} {
 				if d := sig - b; d > -12 && d < 12 {
 					racy = true // the signal fell on a phase boundary: either outcome is legitimate
@@ -390,6 +394,7 @@ func c11Server(run *Run, dir string) int {
 		}
 		kinds := []string{"drain-" + sc.Proto + "-phase=" + phase, fmt.Sprintf("drain-requests=%d", len(sc.Reqs)), "drain-window-new-connection=" + sc.DrainProbe, "drain-connection=" + conn}
 		if sc.After != "" {
+			ann.Add(fmt.Sprintf("(%s, %s)", coqProto[sc.Proto], CoqBool(sc.Announced != "nothing")), rep)
 			kinds = append(kinds, fmt.Sprintf("existing-connection-after-shutdown:%s=%s,announced-%s", sc.Proto, sc.After, sc.Announced))
 		}
 		if racy {
@@ -404,6 +409,7 @@ func c11Server(run *Run, dir string) int {
 		}
 	}
 	sh.Close()
+	ann.Close()
 	return 0
 }
 
